@@ -442,6 +442,12 @@ void r_close(Link &l, int kind) {
         if (kind == 1) {                                //! read everything first; clean when nothing is outstanding
             r_read(l, SIZE_MAX);
             clean = !t.lenient && l.raw.in->verified == l.raw.in->accepted && !l.raw.rerr;
+            if (clean && l.tr == kTcp && outq(l.raw.wfd) != 0) {
+                //! bytes of the raw peer are still unacknowledged: after close() the harness could no longer see them travel
+                l.close_done = false;
+                r_close(l, 0);
+                return;
+            }
         }
         if (l.tr == kPipe) {
             //! closing the write end of the inbound pipe is an orderly end-of-file whatever happens on the other pipe
@@ -547,6 +553,7 @@ int judge(Link &l, TEnd &t, const Need &need) {
             return 1;
         }
         if (o > 0) return 0;
+        if (l.tr == kTcp && l.raw.wfd < 0) return 2;     //! the raw socket is closed: its unsent bytes cannot be observed
         if (bt != l.r2t.accepted)
             vh::viol("recv/lost-bytes", vh::fmt("%s: the peer wrote %llu bytes, the kernel queues are empty, the library holds/consumed %llu",
                                                 t.nm, (unsigned long long)l.r2t.accepted, (unsigned long long)bt));
@@ -609,6 +616,7 @@ void final_drain() {
             struct timespec ts = {0, 1000000};
             nanosleep(&ts, nullptr);
             vh::counter("waits_for_kernel_in_flight");
+            vh::counter(std::string("waits_") + trname(g->links[0]->tr));
         }
         idle = 2;
     }
@@ -739,6 +747,7 @@ void run_bfd_case(vh::Rng &r, const BfdCfg &cfg) {
         int sv[2];
         if (!tcp_pair(sv, sb_t, sb_r)) { vh::counter("setup_failed"); g = nullptr; return; }
         tfd_r = tfd_w = sv[0]; l.raw.rfd = l.raw.wfd = sv[1];
+        tcp_tune(sv[0], false);
     } else {
         static const int psz[] = {4096, 4096, 16384, 65536};
         int a[2], b[2];
@@ -933,6 +942,7 @@ void bind_conn_end(TEnd &t, TcpConnection *conn) {
     SocketFd sfd = conn->socketFd();
     t.rfd = t.wfd = sfd.get();
     t.fd_ok = t.rfd >= 0;
+    if (t.fd_ok && !tw->unix_family) tcp_tune(t.rfd, false);
 }
 
 bool make_listen_addr(vh::Rng &r) {
@@ -955,7 +965,9 @@ int raw_connect() {
 }
 
 void set_small_sndbuf_on_listener(int fd) {
-    if (fd >= 0 && is_socket(fd) && tw->sb_t > 0) set_bufs(fd, tw->sb_t, tw->unix_family ? 0 : tw->sb_t);
+    if (fd < 0 || !is_socket(fd)) return;
+    if (tw->sb_t > 0) set_bufs(fd, tw->sb_t, tw->unix_family ? 0 : tw->sb_t);
+    if (!tw->unix_family) tcp_tune(fd, true);
 }
 
 //! pump until cond() or the patience is over
@@ -1001,7 +1013,7 @@ void client_on_connected() {
         t.threshold = tw->threshold; t.cons = tw->cons;
         bind_client_end(t);
         int fd = tw->client_fd_candidate;
-        if (verify_sock_fd(fd, tw->unix_family)) { t.rfd = t.wfd = fd; t.fd_ok = true; }
+        if (verify_sock_fd(fd, tw->unix_family)) { t.rfd = t.wfd = fd; t.fd_ok = true; if (!tw->unix_family) tcp_tune(fd, false); }
         g->log("[C.connected]");
         return;
     }
@@ -1012,7 +1024,7 @@ void client_on_connected() {
     t.nm = "C"; t.running = true; t.can_send = true;
     bind_client_end(t);
     int fd = tw->client_fd_candidate;
-    if (verify_sock_fd(fd, tw->unix_family)) { t.rfd = t.wfd = fd; t.fd_ok = true; } else vh::counter("fd_not_identified");
+    if (verify_sock_fd(fd, tw->unix_family)) { t.rfd = t.wfd = fd; t.fd_ok = true; if (!tw->unix_family) tcp_tune(fd, false); } else vh::counter("fd_not_identified");
     g->log(vh::fmt("[C.connected#%d]", tw->client_generations));
     if (tw->client_generations > 1) vh::counter("tcp_client_reconnected");
 }
@@ -1073,7 +1085,7 @@ void run_tcp_case(vh::Rng &r) {
             TEnd &t = l->t; t.nm = l->has_t2 ? "S" : "T";
             bind_server_end(t, tk);
             int fd = g->prepass_free_fd;
-            if (verify_sock_fd(fd, tw->unix_family)) { t.rfd = t.wfd = fd; t.fd_ok = true; if (tw->sb_t > 0) set_bufs(fd, tw->sb_t, 0); }
+            if (verify_sock_fd(fd, tw->unix_family)) { t.rfd = t.wfd = fd; t.fd_ok = true; if (tw->sb_t > 0) set_bufs(fd, tw->sb_t, 0); if (!tw->unix_family) tcp_tune(fd, false); }
             else vh::counter("fd_not_identified");
             g->log(vh::fmt("[%s%d.connected]", t.nm, l->idx));
         });
